@@ -125,9 +125,6 @@ def must_reject(d, uas, cols):
   rows = {}
   state = []
   for c, r in pairs:
-    if c['table'] == r['table']:
-      # self pair: an action may touch both sides at once; handled below by refusing such actions
-      pass
     cc, rc = cells(d, c), cells(d, r)
     rel = set((a, b) for a, v in cc.items() for b in refs_of(c['kind'], v))
     if any(b not in rc for (_, b) in rel):
